@@ -353,6 +353,7 @@ P = {
   decided={
     "C27.e": "_tx_model_params is assigned only inside the two kwargs_callback functions (a cached model keeps the parameters of the load that built it)",
     "C27.f": "by evaluation of the classes of model_params.py (instantiated by interpreting their __init__): a declared parameter is accepted by check_params in exactly its own spelling, another spelling or an undeclared name is a TextXError; ModelParams hands out the values it was given (also None and 0) under their own names and exposes all of them",
+    "C27.g": "by evaluation of TextXMetaModel.model_from_file with recording stand-ins: the caller's parameters are checked against the declarations and handed to the model exactly as given (same names, same values: a relative project_root stays relative, None stays None), before the file is loaded with the caller's file name, encoding and debug flag; a rejected parameter stops the load",
     "C27.a": "every public load entry checks the parameters before any model is loaded",
     "C27.b": "every call of a loading API forwards model_params derived from the importing model / the caller's parameter",
     "C27.c": "_tx_model_params is set before the user callback and for every model",
